@@ -1,2 +1,3 @@
-(* C11 — lemmas live in ProofsNeg (negotiation) and ProofsCache (Handlers). *)
-From Falcon.C11 Require Export ProofsNeg ProofsCache.
+(* C11 — lemmas live in ProofsNeg (negotiation), ProofsCache (Handlers) and ProofsSplit
+   (splitting of the range list). *)
+From Falcon.C11 Require Export ProofsNeg ProofsCache ProofsSplit.
